@@ -230,6 +230,22 @@ def run_condensed(doc, log):
         if not ok:
             raise Violation(PROP, "condensed-vs-explicit", f"matrix() after the body was moved to another state through evaluate.*(field) differs from the matrix of a body taken through the same states by vector(field) (rel {rel:.2e})", site="SolidBodyNearlyIncompressible.matrix-after-evaluate", fault=fkd)
         log.count("matrix-after-evaluate-compared")
+        # and back to the final state in the other call order: the live body is moved by the tangent
+        # look matrix(field) and then asked for its forces without a field, the twin by
+        # vector(field) and then matrix() - one state, one set of forces and one tangent
+        w.set_values(final)
+        K_live = live.assemble.matrix(live.field).toarray()
+        r_live = live.assemble.vector().toarray()[:, 0]
+        field4[0].values = np.array(final[0], copy=True)
+        r_cold = cold.assemble.vector(field4).toarray()[:, 0]
+        K_cold = cold.assemble.matrix().toarray()
+        ok, rel = close_exact_twin(K_live, K_cold, rtol=1e-7, atol=1e-8 * float(np.abs(K_cold).max()))
+        if not ok:
+            raise Violation(PROP, "condensed-vs-explicit", f"matrix(field) of the condensed body differs from vector(field) followed by matrix() at the same state sequence (rel {rel:.2e})", site="SolidBodyNearlyIncompressible.matrix-first", fault=fkd)
+        ok, rel = close_exact_twin(r_live, r_cold, rtol=1e-7, atol=1e-8 * float(np.abs(K_cold).max()) * max(float(np.abs(final[0]).max()), 1e-3))
+        if not ok:
+            raise Violation(PROP, "condensed-vs-explicit", f"vector() without a field after the tangent look matrix(field) differs from vector(field) at the same state sequence (rel {rel:.2e})", site="SolidBodyNearlyIncompressible.vector-after-matrix", fault=fkd)
+        log.count("matrix-first-order-compared")
     if doc["mesh"].get("perturb"):
         log.count("distorted-mesh")
     # restart that drops the condensed state ---------------------------------------------------------
